@@ -43,6 +43,62 @@ enum XOp {
     SetAlgebra { other_mask: u8, which: u8 },
     SetPred { other_mask: u8, which: u8 },
     SetEq { other_mask: u8 },
+    /// an iterator driven by internal iteration (for_each, all, fold, last, nth, collect, count,
+    /// map, peekable) whose closure is a user callback. iter: 0 into_iter 1 into_keys
+    /// 2 into_values 3 drain 4 iter_mut 5 iter 6 values_mut 7 Set::into_iter 8 Set::drain 9 Set::iter
+    Driven { iter: u8, how: u8 },
+}
+const N_HOW: u8 = 9;
+
+/// Drive `it` to the end through one of std's internal-iteration paths; every closure call is a
+/// fuse position and hands the item to `keep`.
+fn drive<I: Iterator>(mut it: I, how: u8, keep: &mut dyn FnMut(I::Item)) {
+    let mut k = |x: I::Item| {
+        pl::tick(pl::Cb::Closure);
+        keep(x)
+    };
+    match how {
+        0 => it.for_each(&mut k),
+        1 => {
+            let _ = it.all(|x| {
+                k(x);
+                true
+            });
+        }
+        2 => {
+            let _ = it.fold(0usize, |a, x| {
+                k(x);
+                a + 1
+            });
+        }
+        3 => {
+            if let Some(x) = it.last() {
+                k(x)
+            }
+        }
+        4 => {
+            if let Some(x) = it.nth(1) {
+                k(x)
+            }
+            it.for_each(&mut k)
+        }
+        5 => {
+            let v: Vec<I::Item> = it.collect();
+            v.into_iter().for_each(&mut k)
+        }
+        6 => {
+            it.by_ref().take(1).for_each(&mut k);
+            let _ = it.count();
+        }
+        7 => {
+            let _ = it.map(&mut k).count();
+        }
+        _ => {
+            let mut p = it.peekable();
+            let _ = p.peek();
+            p.for_each(&mut k)
+        }
+    }
 }
 
 fn xops(n: usize, nk: u8) -> Vec<XOp> {
@@ -66,6 +122,11 @@ fn xops(n: usize, nk: u8) -> Vec<XOp> {
         v.push(XOp::SetReplace { k });
         v.push(XOp::SetRemove { k });
         v.push(XOp::SetTake { k });
+    }
+    for iter in 0..10u8 {
+        for how in 0..N_HOW {
+            v.push(XOp::Driven { iter, how });
+        }
     }
     for mask in 0..(1u16 << nk) {
         let mask = mask as u8;
@@ -91,10 +152,23 @@ struct Tally {
 /// One fuse sweep: `run(at)` must build everything afresh, arm the fuse at `at`, execute, judge
 /// and return (callbacks counted, what fired).
 fn sweep(cx: &mut Ctx, t: &mut Tally, label: &str, mut run: impl FnMut(u32, &mut Ctx) -> (u32, Option<(pl::Cb, u32)>, Vec<pl::Cb>)) {
+    // Dry run (no panic injected): counts the callbacks, and is the differential baseline. If the
+    // operation already misbehaves without any panic, that is another property's business (C01,
+    // C02, ...): C04 only speaks about what a panic in user code does, so the sweep is skipped.
     cx.here.extra = "fuse=none (dry run)".to_string();
-    let (c, _, kinds) = run(u32::MAX, cx);
+    let mut base = Ctx::new(cx.enabled);
+    base.here = cx.here.clone();
+    let (c, _, kinds) = run(u32::MAX, &mut base);
     t.runs += 1;
     cx.evaluations += 1;
+    for i in 0..NPROPS {
+        cx.checks[i] += base.checks[i];
+    }
+    if base.total_violations() > 0 {
+        cx.class(&format!("{label}:misbehaves without any panic (not judged under C04)"));
+        cx.here.extra.clear();
+        return;
+    }
     for at in 0..c {
         cx.here.extra = format!("panic injected at user callback #{at} ({}) of {c}", kinds.get(at as usize).map(|k| CB_NAMES[*k as usize]).unwrap_or("?"));
         let (_, fired, _) = run(at, cx);
@@ -486,6 +560,68 @@ fn run_x<const N: usize>(gsys: &MapSys<Kx, Vx, N>, path: &[u32], x: XOp, at: u32
             (ticks, fired) = pl::disarm();
             drop(o);
             setbx = Some(s);
+        }
+        XOp::Driven { iter, how } => {
+            let mut hk: Vec<Kx> = Vec::new();
+            let mut hv: Vec<Vx> = Vec::new();
+            if iter >= 7 {
+                mapbx = None;
+                let mut s = set_of_state::<N>(&keys);
+                pl::arm(at);
+                let r = catch_unwind(AssertUnwindSafe(|| match iter {
+                    7 => {
+                        let owned = std::mem::replace(&mut s.c, Set::new());
+                        drive(owned.into_iter(), how, &mut |k| hk.push(k))
+                    }
+                    8 => drive(s.c.drain(), how, &mut |k| hk.push(k)),
+                    _ => drive(s.c.iter(), how, &mut |k| {
+                        k.desc();
+                    }),
+                }));
+                (ticks, fired) = pl::disarm();
+                let _ = r;
+                setbx = Some(s);
+            } else {
+                let bx = mapbx.as_mut().unwrap();
+                pl::arm(at);
+                let r = catch_unwind(AssertUnwindSafe(|| match iter {
+                    0 => {
+                        let owned = std::mem::replace(&mut bx.c, Map::new());
+                        drive(owned.into_iter(), how, &mut |(k, v)| {
+                            hk.push(k);
+                            hv.push(v)
+                        })
+                    }
+                    1 => {
+                        let owned = std::mem::replace(&mut bx.c, Map::new());
+                        drive(owned.into_keys(), how, &mut |k| hk.push(k))
+                    }
+                    2 => {
+                        let owned = std::mem::replace(&mut bx.c, Map::new());
+                        drive(owned.into_values(), how, &mut |v| hv.push(v))
+                    }
+                    3 => drive(bx.c.drain(), how, &mut |(k, v)| {
+                        hk.push(k);
+                        hv.push(v)
+                    }),
+                    4 => drive(bx.c.iter_mut(), how, &mut |(k, v)| {
+                        k.desc();
+                        v.desc();
+                    }),
+                    5 => drive(bx.c.iter(), how, &mut |(k, v)| {
+                        k.desc();
+                        v.desc();
+                    }),
+                    _ => drive(bx.c.values_mut(), how, &mut |v| {
+                        v.desc();
+                    }),
+                }));
+                (ticks, fired) = pl::disarm();
+                let _ = r;
+            }
+            flush_ledger(cx, PM, "during the driven iteration / the unwinding");
+            drop(hk);
+            drop(hv);
         }
         XOp::SetEq { other_mask } => {
             mapbx = None;
